@@ -1121,3 +1121,20 @@ RECIPES += [
     _r6("break", _I2B, "    tf = np.zeros(n + 1, dtype=bool)\n    tf[pv] = True\n    return tf[:n]\n", "index2bool: scratch vector one longer (from-the-end indices land one off)"),
     _r6("break", _I2B, "    tf = np.zeros(n, dtype=bool)\n    tf[np.abs(pv)] = True\n    return tf\n", "index2bool: negative indices mirrored"),
 ]
+
+RECIPES += [
+    # own refactorings of pass 5 (single-replacement parts)
+    _r6("neutral", _FLIP, "    if len(pv) == 0:\n        return np.arange(n)\n    keep = ~np.zeros(n, dtype='bool')\n    try:\n        keep[pv] = False\n    except IndexError:\n        raise\n    return (hits := np.where(keep))[0]\n",
+        "flippv: early exit for an empty vector, try / except re-raise, walrus"),
+    _r6("neutral", _FLIP, "    def complement(sel):\n        return np.delete(np.arange(n), sel)\n\n    return complement(pv)\n", "flippv: nested function closing over n"),
+    _r6("neutral", _FLIP, "    sel = index2bool(pv, n)\n    return np.extract(np.logical_xor(sel, True), np.arange(n))\n", "flippv: extract where the index2bool mask is False"),
+    _r6("neutral", _FLIP, "    tf = np.zeros(n, dtype=bool)\n    tf[pv] = True\n    np.logical_not(tf, out=tf)\n    (notpv, *_) = tf.nonzero()\n    return notpv\n", "flippv: in-place logical_not(out=), starred unpacking"),
+    _r6("neutral", _FLIP, "    tf = np.ones(n, dtype=bool)\n    rev = tf[::-1]\n    tf[pv] = False\n    return n - 1 - rev.nonzero()[0][::-1]\n", "flippv: positions read through a reversed view taken before the store"),
+    _r6("neutral", _I2B, "    mark = lambda tf: (tf.__setitem__(pv, True), tf)[1]\n    return mark(np.zeros(n, dtype=bool))\n", "index2bool: store inside a lambda"),
+    _r6("neutral", _I2B, "    hits = np.zeros(n, dtype=np.intp)\n    hits[pv] = 1\n    return hits.astype(bool)\n", "index2bool: integer scratch vector converted to a mask"),
+    _r6("neutral", _I2B, "    tf = np.full((n,), False, dtype=np.bool_)\n    if np.size(pv):\n        tf[pv] = True\n    return tf\n", "index2bool: store skipped for an empty vector"),
+    _r6("break", _FLIP, "    tf = np.ones(n, dtype=bool)\n    rev = tf[::-1].copy()\n    tf[pv] = False\n    return n - 1 - rev.nonzero()[0][::-1]\n", "flippv: positions read from a copy taken before the store"),
+    _r6("break", _FLIP, "    if len(pv) == 0:\n        return np.arange(n)\n    if pv[0] < 0:\n        pv = pv + n - 1\n    keep = np.ones(n, dtype=bool)\n    keep[pv] = False\n    return keep.nonzero()[0]\n",
+        "flippv: from-the-end indices wrapped one off"),
+    _r6("break", _I2B, "    tf = np.full((n,), False, dtype=np.bool_)\n    if np.any(pv):\n        tf[pv] = True\n    return tf\n", "index2bool: store skipped when pv holds only zeros / False ([0] selects position 0)"),
+]
